@@ -230,10 +230,15 @@ def canaries(ctx):
     best = dtl.dp_table(B.G, B.S, B.leafmap, B.c)
     best2 = {v: dict(d) for v, d in best.items()}
     best2[B.G.root][B.S.root] += 1
-    from superrec2.compute.reconciliation import _compute_thl_table
+    class _Cell:  # the canary needs a table-shaped object, not the package's private table builder
+        def __init__(self, v):
+            self.v = v
 
-    table = _compute_thl_table(B.inp, ALL)
-    ok &= bool(judge_table(B, table, best2)[0])
+        def value(self):
+            return self.v
+
+    table = {B.gnode[v]: {B.snode[s]: _Cell(best[v][s]) for s in B.S.nodes} for v in B.G.nodes}
+    ok &= bool(judge_table(B, table, best2)[0]) and not judge_table(B, table, best)[0]
     ctx.count("canaries")
     if not ok:
         raise Inconclusive("C01 canary accepted by an oracle")
